@@ -15,7 +15,7 @@ import c18 as trig
 import c05_real
 
 PROPERTY = "C05"
-LEAN_MODULES = ["Proofs.C05", "Proofs.C05.Refresh", "Proofs.C05.Hooks", "Proofs.C05.Finalize", "Proofs.C05.BarIndex", "Proofs.C05.Clock"]
+LEAN_MODULES = ["Proofs.C05", "Proofs.C05.Refresh", "Proofs.C05.Hooks", "Proofs.C05.Finalize", "Proofs.C05.BarIndex", "Proofs.C05.Clock", "Proofs.C05.Strict"]
 DRIVERS = ["driver_core"]
 RULE = ("random runs: 1..3 markets (minutely, hourly, hourly option book with 2..80 rows per timestamp — sometimes more rows than the longest market has "
         "minutes —, with gaps, starting late / ending early), bar interval 1/2/3/5/7/15/45/60 min (string forms "
@@ -29,6 +29,8 @@ RULE = ("random runs: 1..3 markets (minutely, hourly, hourly option book with 2.
         "fixed cases: minutely market + 2 h x 80-row book, 2-3 markets with a write only on a later-registered one, answers from notify(), a raise "
         "in each of the seven hooks x bar {0, 2, 3, 5} x class, self-removing / installing / earlier-removing trigger actions; a run that a hook "
         "ended is judged against a fresh run of the same strategy without the raise (calls, account history, actions: prefixes; second run: equal); "
+        "markets (probe markets at random, the real UniLpMarket always) whose set_market_status looks the row up unguarded — KeyError on a bar "
+        "without a row, as five of the six real classes do (observed on the real objects and compared with the flags the model reads from the source); "
         "real-market stream (harness/c05_real.py, oracle only): UniLpMarket(weth/osqth) + SqueethMarket under a real Actuator with scripted calls from "
         "before_bar/on_bar/after_bar/finalize — accepted, refused, and failing with another exception class (KeyError from a vault key / position "
         "that does not exist), all caught by the strategy —, and UniLpMarket + DeribitOptionMarket with an option expiring inside the run, with and "
@@ -97,15 +99,15 @@ def gen_case(rng, big=False):
         if kind == "hourly" and rng.random() < 0.5:
             # an option book: several rows per timestamp; sometimes more rows than the longest market has timestamps
             mk["kind"], mk["rows"] = "book", rng.choice((2, 3, 7, max(2, n_raw // max(1, len(times)) + 1), 80))
+        if rng.random() < 0.25:
+            mk["strict"] = True        # set_market_status looks the row up unguarded, as every real class but DeribitOptionMarket does: a bar
+                                       # without a row ends the run with KeyError instead of finding the market closed
         markets.append(mk)
     if istr == "1min" and rng.random() < 0.35:       # a real UniLpMarket in the mix
-        cand = markets + [{"kind": "uni", "times": list(base), "open": rng.random() < 0.3}]
-        longest = max(cand, key=lambda m: len(m["times"]))
-        # UniLpMarket.set_market_status raises KeyError on a bar without a row (only Deribit tolerates that): keep it only if its
-        # frame has a row for every bar of the run
-        if set(longest["times"]) <= set(base):
-            markets = cand
-            nm += 1
+        # UniLpMarket.set_market_status raises KeyError on a bar without a row (only Deribit tolerates that): strict
+        times = list(base) if rng.random() < 0.7 else [t for t in base if rng.random() < 0.9] or [base[0]]
+        markets = markets + [{"kind": "uni", "times": times, "open": rng.random() < 0.3, "strict": True}]
+        nm += 1
     lo = min(m["times"][0] for m in markets)
     hi = max(m["times"][-1] for m in markets)
     r = rng.random()
@@ -322,7 +324,7 @@ def run_impl(case):
     from demeter._typing import DemeterError
     rec = cl.Recorder()
     rec.initialized = False
-    a, ms, rec = cl.build([(f"m{i}", m["times"], m["open"], m["kind"], m.get("rows", 1), m.get("sparse", False)) for i, m in enumerate(case["markets"])], case["prices"], case["istr"], rec)
+    a, ms, rec = cl.build([(f"m{i}", m["times"], m["open"], m["kind"], m.get("rows", 1), m.get("sparse", False), is_strict(m)) for i, m in enumerate(case["markets"])], case["prices"], case["istr"], rec)
     sc = case["script"]
     t_before, t_on, t_after, t_fire, t_open, t_notify, upd_by_row, t_fin_notify = {}, {}, {}, {}, {}, {}, {}, {}
     cur_sc = {"sc": sc}
@@ -505,6 +507,11 @@ def run_impl(case):
                 ["raised", second["err"], (second["exc"] or "")[-100:]] if second["err"] is not None else
                 next(([i, x, y] for i, (x, y) in enumerate(zip(ev2 + [None] * len(first), first + [None] * len(ev2))) if x != y), "length"))
     return obs
+
+
+def is_strict(m):
+    """does the market's set_market_status raise KeyError on a bar its frame has no row for (the real UniLpMarket does)"""
+    return bool(m.get("strict", m["kind"] == "uni"))
 
 
 def has_boom(script):
@@ -693,6 +700,44 @@ def oracle(ctx, case, obs, rep):
                                              f"{str(obs['rerun'])[:300]}")
 
 
+def first_strict_failure(case):
+    """the first bar (None: none) on which a strict market has no row, from the case alone"""
+    step = 60 * case["interval"]
+    resample = resampled(case["istr"])
+    longest = max(case["markets"], key=lambda m: len(set(m["times"])))
+    bars = expected_index(sorted(set(longest["times"])), step, resample)
+    idx = [set(market_index(m, step, resample)) if is_strict(m) else None for m in case["markets"]]
+    for t in bars:
+        for i, s_ in enumerate(idx):
+            if s_ is not None and t not in s_:
+                return bars, t, i
+    return bars, None, None
+
+
+def oracle_strict(ctx, case, obs, rep):
+    """a strict market (UniLpMarket, AaveV3Market, SqueethMarket, GmxMarket, GmxV2Market behave so) without a row on a bar: the run cannot go
+    on as if the market were closed — it ends with KeyError at that bar, before the bar's before_bar, with the rows of the bars before it"""
+    V = lambda key, what: ctx.violate(key, what, rep)  # noqa: E731
+    bars, tb, mi = first_strict_failure(case)
+    ev = obs["events"]
+    if tb is None:
+        return
+    if obs["err"] is None:
+        V("Actuator.run:strict-market-without-row-went-on", f"market {mi} looks its row up unguarded and has none at {tb}, yet the run ended normally")
+        return
+    if obs["err"] != "KeyError":
+        return          # ended earlier for another reason (price frame, trigger): the model comparison judges it
+    befores = [e[1] for e in ev if e[0] == "before"]
+    if befores and befores[-1] >= tb:
+        V("Actuator.run:bar-ran-although-strict-market-has-no-row", f"before_bar ran at {befores[-1]}; market {mi} has no row at {tb}")
+    if obs["status_ts"] != bars[:len(obs["status_ts"])] or (obs["status_ts"] and obs["status_ts"][-1] >= tb):
+        V("Actuator.account_status:after-strict-failure", f"account rows {obs['status_ts'][-3:]} after the run ended at {tb}")
+    # the markets registered before the failing one were refreshed on that bar, the failing one and those behind it were not
+    last_sets = [e[2] for e in ev if e[0] == "set" and e[1] == tb and e[3] == (0 if tb == bars[0] else 1)]
+    if last_sets != list(range(mi)):
+        V("Actuator.run:refresh-at-strict-failure", f"markets refreshed on the failing bar {tb}: {last_sets}, expected {list(range(mi))}")
+
+
 def recorded_of(ev):
     out = []
     for e in ev:
@@ -759,7 +804,7 @@ def model_request(case, obs=None):
     extra = {}
     if obs is not None and "second" in obs:
         extra["then"] = strip_booms(case["script"])
-    return {**extra, "fn": "run_g", "markets": [{"idx": ints([t for t in m["times"] for _ in range(m.get("rows", 1))]), "open": m["open"], "sparse": bool(m.get("sparse", False))} for m in case["markets"]],
+    return {**extra, "fn": "run_g", "markets": [{"idx": ints([t for t in m["times"] for _ in range(m.get("rows", 1))]), "open": m["open"], "sparse": bool(m.get("sparse", False)), "strict": is_strict(m)} for m in case["markets"]],
             "prices": ints(case["prices"]),
             "delta": str(60 * case["interval"]), "resample": resampled(case["istr"]), "specs": specs, "script": case["script"]}
 
@@ -768,10 +813,12 @@ def check_case(ctx: Ctx, case, reqs=None):
     obs = run_impl(case)
     rep = case
     nm = len(case["markets"])
-    kinds = "+".join(sorted(m["kind"] + ("~sparse" if m.get("sparse") else "") for m in case["markets"]))
+    kinds = "+".join(sorted(m["kind"] + ("~sparse" if m.get("sparse") else "") + ("!" if is_strict(m) and m["kind"] != "uni" else "") for m in case["markets"]))
     ev = obs["events"]
     boom = has_boom(case["script"])
     dynamic = any(st[0] in ("tadd", "tdel") for body in bodies(case["script"]) for st in body)
+    if not boom:
+        oracle_strict(ctx, case, obs, rep)
     if obs["err"] is None:
         oracle(ctx, case, obs, rep)
     elif boom:
@@ -887,6 +934,72 @@ def real_market_resample(ctx: Ctx):
                         f"{name}._resample('5min') raises {type(e).__name__} ({str(e)[:120]}): a run with interval != 1min cannot start", {"real_resample": name})
 
 
+def real_market_strictness(ctx: Ctx):
+    """which real market classes raise KeyError from set_market_status on a bar their frame has no row for: observed on the objects, compared
+    with the flags the model reads from the source (`Gen.coreStrictStatus…`, answered by the driver)"""
+    cl.setup()
+    import os
+    from demeter import MarketInfo, TokenInfo, MarketTypeEnum
+    from demeter.broker import MarketStatus
+    from demeter.aave import AaveV3Market
+    from demeter.gmx import GmxMarket
+    from demeter.gmx.market2 import GmxV2Market
+    from demeter.gmx._typing2 import GmxV2Pool
+    from demeter.squeeth import SqueethMarket
+    from demeter.uniswap import UniLpMarket, UniV3Pool
+    from demeter.deribit import DeribitOptionMarket
+    import c05_real
+    weth, usdc = TokenInfo("weth", 18), TokenInfo("usdc", 6)
+    times = [8 * 3600 + 60 * i for i in range(4)]
+    index = pd.DatetimeIndex([cl.at(t) for t in times])
+    missing = pd.Timestamp(cl.at(8 * 3600 + 7200))
+
+    def fr():
+        return pd.DataFrame({"v": [float(i) for i in range(len(times))]}, index=index)
+    risk = os.path.join(cl_repo(), "tests", "aave_risk_parameters", "demo.csv")
+
+    def uni():
+        m = UniLpMarket(MarketInfo("u"), UniV3Pool(usdc, weth, 0.05, usdc))
+        m.data = c05_real.pool_frame(m, index, 200000)
+        return m
+
+    def deribit():
+        m = DeribitOptionMarket(MarketInfo("o", MarketTypeEnum.deribit_option), DeribitOptionMarket.ETH)
+        m.data = c05_real.option_frame("2023-09-22", [6, 7], [("ETH-29SEP23-3000-C", 3000, pd.Timestamp("2023-09-29 08:00:00"))])
+        return m
+    makers = {
+        "UniLpMarket": uni,
+        "AaveV3Market": lambda: AaveV3Market(MarketInfo("aave"), risk, [weth], data=fr()),
+        "GmxMarket": lambda: GmxMarket(MarketInfo("gmx"), [weth], data=fr()),
+        "GmxV2Market": lambda: GmxV2Market(MarketInfo("gmx2"), GmxV2Pool(weth, usdc, weth), data=fr()),
+        "SqueethMarket": lambda: SqueethMarket(MarketInfo("sq"), None, data=fr()),
+        "DeribitOptionMarket": deribit,
+    }
+    seen = {}
+    for name, mk in makers.items():
+        try:
+            m = mk()
+        except Exception as e:  # noqa: BLE001
+            ctx.note(f"strictness_{name}", f"could not construct: {type(e).__name__}")
+            continue
+        ts = pd.Timestamp("2023-09-22 09:00:00") if name == "DeribitOptionMarket" else missing
+        try:
+            m.set_market_status(MarketStatus(ts, None), None)
+            seen[name] = False
+        except KeyError:
+            seen[name] = True
+        except Exception as e:  # noqa: BLE001
+            ctx.note(f"strictness_{name}", f"set_market_status on a bar without a row raised {type(e).__name__}")
+            continue
+        ctx.case(f"real-strictness:{name}:{'KeyError' if seen[name] else 'closed'}")
+    if ctx.driver_ok and seen:
+        flags = driver_json([{"fn": "strict_flags"}], exe="driver_core")[0]
+        for name, got in seen.items():
+            if flags.get(name) != got:
+                ctx.disagree(f"{name}.set_market_status on a bar without a row: {'KeyError' if got else 'market closed'} observed, the flag read from the "
+                             f"source says strict={flags.get(name)}", {"real_strictness": name})
+
+
 def cl_repo():
     import common
     return common.REPO
@@ -962,6 +1075,7 @@ def fixed_cases():
 def run(ctx: Ctx):
     cl.setup()
     real_market_resample(ctx)
+    real_market_strictness(ctx)
     c05_real.run_stream(ctx)        # real UniLpMarket + SqueethMarket / DeribitOptionMarket under a real Actuator (oracle only)
     n = ctx.scale(260, 6000)
     reqs = []
